@@ -90,19 +90,77 @@ def _coords(rng, vals, focus):
     return (a, b) if a <= b else (b, a)
 
 
-def make_set(seed, n=300, nhubs=12):
-    """A feature set: {"features": [...], "text": GFF3, "focus": [...], "seqids": [...]}."""
+CASE_PAIRS = [("chrA", "chra"), ("pA", "pa"), ("Chr1", "chr1"), ("ctgX", "CTGX"), ("scaffold_é", "Scaffold_é")]
+SMALL = 2 ** 17          # the first finest bin is [1, SMALL]
+
+
+def _binend_coords(rng, ends):
+    """Coordinates of the 'binends' flavour: small features inside the first 128 kb, features around the last base
+    B = m*2^(17+3k) of a bin of every level (ending exactly on B, one before/after, starting on B+1, filling the bin)."""
+    r = rng.random()
+    if r < 0.38:
+        a = rng.choice([1, 1, 2, rng.randrange(1, SMALL + 1), rng.randrange(1, SMALL + 1), SMALL - rng.randrange(0, 40)])
+        b = a + rng.choice([0, 1, 10, 500, rng.randrange(0, 3000)])
+        if rng.random() < 0.25:
+            b = SMALL + rng.choice([-1, 0, 0, 1])
+        return a, max(a, b)
+    if r < 0.88:
+        k = rng.choice([0, 0, 1, 1, 2, 2, 3, 3, 4])
+        sz = S.size(k)
+        B = rng.choice(ends[k])
+        ln = rng.choice([0, 1, 7, 1000, rng.randrange(0, sz), rng.randrange(0, 2 ** 17)])
+        form = rng.randrange(7)
+        if form <= 1:
+            a, b = B - ln, B                  # ends exactly on the last base of the bin
+        elif form == 2:
+            a, b = B - ln, B - 1
+        elif form == 3:
+            a, b = B - ln, B + 1              # straddles
+        elif form == 4:
+            a, b = B + 1, B + 1 + ln          # first base of the next bin
+        elif form == 5:
+            a, b = B - sz + 1, B              # exactly the bin
+        else:
+            a, b = B, B + ln
+        a = max(1, a)
+        return a, max(a, b)
+    return None
+
+
+def make_set(seed, n=300, nhubs=12, flavour=None):
+    """A feature set: {"features": [...], "text": GFF3, "focus": [...], "seqids": [...]}.
+
+    flavour None: boundary-directed coordinates (see _coords).
+    flavour "case": the seqids are pairs differing only in letter case; about half of the features have a twin with
+        the same coordinates (and the same Parent values) on the other spelling.
+    flavour "binends": small features inside the first 128 kb and features around bin ends of every level."""
     rng = random.Random(seed * 7919 + 13)
     vals = boundary_values()
     top = [v for v in vals if LIMIT - 2 <= v <= LIMIT + 2]
     focus = sorted(set(rng.sample(vals, 22) + rng.sample(top, 3) + [rng.randrange(1, LIMIT) for _ in range(2)]))
     seqids = rng.sample(SEQIDS, rng.choice([2, 3, 3, 4]))
+    partner, ends = {}, None
+    if flavour == "case":
+        pairs = rng.sample(CASE_PAIRS, rng.choice([1, 2, 2]))
+        seqids = [s for pr in pairs for s in (pr if rng.random() < 0.5 else pr[::-1])]
+        for a, b in pairs:
+            partner[a], partner[b] = b, a
+        n_all, n = n, (2 * n) // 3
+    elif flavour == "binends":
+        ends = []
+        for k in range(5):
+            nb = S.NBINS[k]
+            ms = {1, nb} | {rng.randrange(1, nb + 1) for _ in range(5)} | {rng.choice([2, 8, 9, 64, 65, 512])}
+            ends.append(sorted(m * S.size(k) for m in ms if m <= nb))
+        seqids = rng.sample(SEQIDS, 2)
     weights = [0.55] + [0.45 / (len(seqids) - 1)] * (len(seqids) - 1)
     feats = []
     hubs = []
     for i in range(n):
         hub = i < nhubs
         a, b = _coords(rng, vals, focus)
+        if ends is not None:
+            a, b = _binend_coords(rng, ends) or (a, b)
         f = {
             "id": ("h%d" if hub else "f%d") % i,
             "seqid": rng.choices(seqids, weights)[0],
@@ -119,11 +177,24 @@ def make_set(seed, n=300, nhubs=12):
             if rng.random() < 0.8:
                 f["seqid"] = [h for h in feats if h["id"] == f["parents"][0]][0]["seqid"]
         feats.append(f)
+    if flavour == "case":
+        # twins: same coordinates, featuretype, Parent values - on the seqid that differs only in letter case
+        for f in list(feats):
+            if len(feats) < n_all and rng.random() < 0.6:
+                t = dict(f, id=f["id"] + "t", seqid=partner[f["seqid"]], parents=list(f["parents"]))
+                if rng.random() < 0.3:
+                    t["strand"] = rng.choice(STRANDS)
+                feats.append(t)
+        n = len(feats)
+    if ends is not None:
+        used = sorted({f["start"] for f in feats} | {f["end"] for f in feats})
+        focus = sorted(set(rng.sample(used, min(len(used), 24)) + [LIMIT - 1, LIMIT, 1]))
     # input order is not hub-first
     order = list(range(n))
     rng.shuffle(order)
     feats = [feats[i] for i in order]
-    return {"features": feats, "text": text_of(feats), "focus": focus, "seqids": seqids, "hubs": hubs}
+    return {"features": feats, "text": text_of(feats), "focus": focus, "seqids": seqids, "hubs": hubs,
+            "partner": partner, "binends": ends, "flavour": flavour}
 
 
 def text_of(feats):
@@ -185,11 +256,72 @@ def _interval(rng, SET, pool, within):
     return (a, b) if a <= b else (b, a)
 
 
-def gen_query(rng, SET):
-    """One query (JSON-able dict) against the feature set SET."""
+TWO_BOUND_REGION_FORMS = [(f, w) for f, w in REGION_FORMS if "only" not in f]
+
+
+def _wide_interval(rng, pool):
+    """start in 1..2^17, span 100-500 Mb, end below 2^29 (often on/next to an end of a stored feature)."""
+    small = [f for f in pool if f["start"] <= SMALL]
+    r = rng.random()
+    if small and r < 0.45:
+        a = rng.choice(small)["start"] + rng.choice([-1, 0, 0, 1])
+    elif r < 0.75:
+        a = rng.choice([1, 1, 2, SMALL - 1, SMALL, rng.randrange(1, SMALL + 1)])
+    else:
+        a = rng.randrange(1, SMALL + 1)
+    a = min(max(1, a), SMALL)
+    lo = a + 100 * 10 ** 6
+    hi = min(a + 500 * 10 ** 6, LIMIT - 1)
+    far = [f for f in pool if lo <= f["end"] <= hi]
+    r = rng.random()
+    if far and r < 0.4:
+        b = rng.choice(far)["end"] + rng.choice([-1, 0, 0, 1])
+    elif r < 0.55:
+        b = a + rng.randrange(100 * 10 ** 6, 104 * 10 ** 6)     # just below / above the 900-bin threshold
+    elif r < 0.7:
+        b = hi - rng.choice([0, 0, 1, 2, 2 ** 17])
+    else:
+        b = rng.randrange(lo, hi + 1)
+    return a, min(max(b, lo), hi)
+
+
+def _binend_interval(rng, SET, pool, k):
+    """end = last base of a level-k bin (a multiple of 2^(17+3k)), start anywhere at or before it."""
+    sz = S.size(k)
+    ends = (SET.get("binends") or [None] * 5)[k]
+    on = sorted({f["end"] for f in pool if f["end"] % sz == 0 and f["end"] < LIMIT})
+    r = rng.random()
+    if on and r < 0.6:
+        b = rng.choice(on)
+    elif ends and r < 0.85:
+        b = rng.choice([e for e in ends if e < LIMIT] or [sz])
+    else:
+        b = sz * rng.randrange(1, S.NBINS[k])
+    hit = [f for f in pool if f["end"] == b]
+    r = rng.random()
+    if hit and r < 0.4:
+        a = rng.choice(hit)["start"] + rng.choice([-1, 0, 0, 1])
+    elif r < 0.55:
+        a = b - sz + 1                                           # exactly the bin
+    elif r < 0.65:
+        a = b - sz + rng.choice([0, 2])
+    elif r < 0.75:
+        a = b
+    elif r < 0.85:
+        a = rng.choice([1, 2, SMALL, SMALL + 1])
+    else:
+        a = rng.randrange(1, b + 1)
+    return min(max(1, a), b), b
+
+
+def gen_query(rng, SET, mode=None):
+    """One query (JSON-able dict) against the feature set SET.
+
+    mode None: see RULE of the check; "wide": two-bound query of span 100-500 Mb starting inside the first 128 kb
+    (85% completely_within); "binend": two-bound query whose end is the last base of a bin of level 0-3."""
     feats = SET["features"]
     api = _weighted(rng, APIS)
-    within = rng.random() < 0.5
+    within = rng.random() < (0.85 if mode == "wide" else 0.5)
     q = {"api": api, "within": within, "id": None, "strand": None, "fstrand": None}
     pool_all = feats
     if api == "children":
@@ -206,10 +338,18 @@ def gen_query(rng, SET):
         seqid = rng.choice(pool_all)["seqid"]
     else:
         seqid = rng.choice(SET["seqids"] + ["chrNone"])
-    q["form"] = _weighted(rng, REGION_FORMS if api == "region" else LIMIT_FORMS)
+    q["form"] = _weighted(rng, (REGION_FORMS if mode is None else TWO_BOUND_REGION_FORMS) if api == "region" else LIMIT_FORMS)
     q["seqid"] = None if q["form"].endswith("noseqid") else seqid
     pool = [f for f in pool_all if q["seqid"] is None or f["seqid"] == q["seqid"]]
-    a, b = _interval(rng, SET, pool, within)
+    if mode == "wide":
+        a, b = _wide_interval(rng, pool)
+        q["tag"] = "wide"
+    elif mode == "binend":
+        k = rng.randrange(4)
+        a, b = _binend_interval(rng, SET, pool, k)
+        q["tag"] = "binend:%d" % k
+    else:
+        a, b = _interval(rng, SET, pool, within)
     q["start"] = None if q["form"].startswith("end-only") else a
     q["end"] = None if q["form"].startswith("start-only") else b
     if api in ("region", "all_features", "features_of_type"):
